@@ -130,6 +130,17 @@ FOOTNOTE_SHAPES = [
     'SEC 1\n  **{{FOOTNOTE 1}}**\n  FOOTNOTE 1\n    //{{FOOTNOTE 2}}//\n    FOOTNOTE 2\n      z\n',
 ]
 
+# raw-valued slots: link targets, image sources and descriptions, attribute values - with backslashes (UNC paths, file: URLs), percent
+# escapes, braces, pipes' neighbours and non-ASCII text; each document must round-trip exactly
+RAW_SLOT_DOCS = [
+    'SEC 1 - Records\n\n  The register is kept at {{>file:\\\\\\\\registry\\\\acts\\\\2009 the registry share}} and is open.\n',
+    'SEC 1\n  see {{>C:\\\\temp\\\\a.txt a file}} and {{>http://x.y/a%20b?q=1&r=2#frag a link}}\n',
+    'SEC 1\n  {{IMG media\\\\img\\\\1.png a \\\\ backslash in the description}} and {{IMG a%20b.png}}\n',
+    'SEC 1\n  {{>#sec_2 \\\\ text with a backslash}} {{>https://example.com/\u00e9t\u00e9 \u00e9t\u00e9}}\n',
+    'SEC 1\n  {{abbr{title a\\\\b} x}} {{term{refersTo #t\\\\u} y}} {{inline{name n\\\\m} z}}\n',
+    'SEC{status a\\\\b} 1 - h\n  P{class c\\\\d} text\n',
+]
+
 def make(seed, root, depth):
     rng = random.Random(seed)
     return absdoc.Gen(rng, footnotes=True, attrs=True, max_depth=depth).document(root)
@@ -186,7 +197,7 @@ def search(ctx, budget):
         ctx.evaluations += 1; ctx.count('witness_' + r[0])
         if r[0] == 'bad':
             ctx.failures.append(({'stage': 'witness', 'family': fam, 'root': root, 'text': text}, r[1]))
-    kd = keyword_text_docs() + [(r, t) for t in FOOTNOTE_SHAPES for r in ('act', 'doc')]
+    kd = keyword_text_docs() + [(r, t) for t in FOOTNOTE_SHAPES + RAW_SLOT_DOCS for r in ('act', 'doc')]
     for (root, text), r in zip(kd, impl.pmap(_wjob, kd, chunk=16)):
         ctx.evaluations += 1; ctx.count('keyword_text_' + r[0])
         if r[0] == 'bad':
